@@ -868,6 +868,8 @@ func rawBases(c *fw.Ctx) []*base {
 		// inline images with every dictionary key incl. the PDF 2.0 /L (length) entry, text-state operators, marked content
 		&base{id: "rawcs1", kind: "raw-content", ext: "bin", data: []byte("q BI /W 2 /H 2 /BPC 8 /CS /G /L 4 ID\nabcd\nEI Q BT /F1 9 Tf 2 Tr 3 Ts 1.5 Tc 2 Tw 90 Tz 11 TL 1 0 0 1 5 6 Tm (x) ' 1 2 (y) \" ET " +
 			"/P <</MCID 3>> BDC BT (z) Tj ET EMC BI /Width 3 /Height 1 /BitsPerComponent 8 /ColorSpace /RGB /Length 9 /F [/AHx] /D [0 1] /I true /IM false ID 616263616263616263> EI 0 0 10 10 re f /GS1 gs /Sh1 sh 5 0 0 5 0 0 cm /Fm1 Do")},
+		// dictionary operands written with white space inside, nested, with comments and every line ending
+		&base{id: "rawcs2", kind: "raw-content", ext: "bin", data: []byte("/Span << /MCID 1 /Lang (en-GB) /ActualText <FEFF0041> /A [ 1 2 ] /D << /E 1 /F << /G null >> >> >> BDC\r\nBT /F1 10 Tf ( a ) Tj ET % note\rEMC /OC /MC0 BDC << /K true >> pop EMC\n<< >> x << /N /V >> y")},
 		&base{id: "rawcmap0", kind: "raw-cmap", ext: "bin", data: pdfw.ToUnicodeProgram(map[string]string{"A": "x", "B": "y", "\x01\x02": "z"}, 1, "\n")},
 		&base{id: "rawcmap1", kind: "raw-cmap", ext: "bin", data: []byte("1 begincodespacerange\n<0000> <FFFF>\nendcodespacerange\n2 beginbfrange\n<0001> <0010> <0041>\n<0020> <0022> [<0061> <0062> <0063>]\nendbfrange\n1 beginbfchar\n<0030> <D83DDE00>\nendbfchar\n")},
 		// code space ranges of different widths (ISO 32000-1 9.7.6.2, the 90ms-RKSJ example) with targets in each
